@@ -3,7 +3,7 @@
    ingredients on arbitrary header maps / tracker states. *)
 From Coq Require Import List Bool NArith ZArith.
 From AUC Require Import Prelude.PyStr Prelude.PyDict C16.Model C16.Proofs C03.Model C03.Spec C03.Run
-  C04.Spec C04.Proofs C04.Run C04.History C04.Sender.
+  C04.Spec C04.Proofs C04.Run C04.History C04.Sender C03.Clauses.
 Import ListNotations.
 
 (* "a non-volatile header value differs from the previous message of that type": for all header maps
@@ -63,6 +63,14 @@ Theorem C04_notify_exact_prefix :
   forall i : input, C04.Run.spec_failures_prefix i (model_run i) = [].
 Proof. exact notify_exact_prefix. Qed.
 Print Assumptions C04_notify_exact_prefix.
+
+(* The expectation is relative to the device table of the previous observation; what makes that table right is C03's
+   statement.  The correspondence check therefore evaluates C03's clauses on the same observations (reported as clauses
+   11..15 of C04); of the model they hold on every history, as for C03. *)
+Theorem C04_tracker_clauses :
+  forall i : input, C03.Run.spec_failures_prefix i (model_run i) = [].
+Proof. exact C03.Clauses.spec_holds_prefix. Qed.
+Print Assumptions C04_tracker_clauses.
 
 Theorem C04_history_clauses :
   forall (ipv : pystr -> option N) (ops : list op) (t : tracker) (st : spec_state) (prev : obs) (n : N),
